@@ -501,6 +501,56 @@ func boundaryEntries() []*entry {
 	return es
 }
 
+// sharedSlotEntries: union members that share ONE pointer slot and have DIFFERENT struct defaults
+// (plus members without default, AnyPointer, interface, text in the same slot), also inside a group
+// and inside a group nested in a union member group.
+func sharedSlotEntries() []*entry {
+	name := "shared_slot"
+	r := &rng{s: 4711}
+	g := &schemaGen{r: r, base: name + ".capnp"}
+	g.nextID = 0x5151515 + 0x30000000000
+	g.fileID, g.enumID, g.ifaceID = g.newID(), g.newID(), g.newID()
+	nd := schema.Field_noDiscriminant
+	add := func(node *nodeSpec, f *fieldSpec) {
+		g.nfield++
+		f.name = fmt.Sprintf("f%d", g.nfield)
+		node.fields = append(node.fields, f)
+	}
+	// union of members all living in pointer slot `slot`, discriminant at 16-bit offset doff
+	members := func(node *nodeSpec, slot, doff uint32, base int) {
+		node.discOff = doff
+		add(node, &fieldSpec{kind: "struct", off: slot, disc: 0, defPtr: base + 1})
+		add(node, &fieldSpec{kind: "struct", off: slot, disc: 1, defPtr: base + 2})
+		add(node, &fieldSpec{kind: "struct", off: slot, disc: 2})
+		add(node, &fieldSpec{kind: "any", off: slot, disc: 3})
+		add(node, &fieldSpec{kind: "iface", off: slot, disc: 4})
+		add(node, &fieldSpec{kind: "struct", off: slot, disc: 5, defPtr: base + 3})
+		add(node, &fieldSpec{kind: "text", off: slot, disc: 6, defText: "t1777"})
+		add(node, &fieldSpec{kind: "list", off: slot, disc: 7, listElt: "u64", defPtr: 2})
+		node.discCount = 8
+	}
+	n := &nodeSpec{id: g.newID(), name: "S0", dwc: 1, pc: 3}
+	g.nodes = append(g.nodes, n)
+	g.structs = append(g.structs, n)
+	members(n, 0, 0, 7100)
+	// a plain group with such a union in slot 1
+	g1 := &nodeSpec{id: g.newID(), isGroup: true}
+	g.nodes = append(g.nodes, g1)
+	members(g1, 1, 1, 7200)
+	add(n, &fieldSpec{kind: "group", disc: nd, group: g1})
+	// a group that is itself a union member of a group, nesting a union in slot 2
+	g2 := &nodeSpec{id: g.newID(), isGroup: true}
+	g.nodes = append(g.nodes, g2)
+	inner := &nodeSpec{id: g.newID(), isGroup: true}
+	g.nodes = append(g.nodes, inner)
+	members(inner, 2, 3, 7300)
+	g2.discCount, g2.discOff = 2, 2
+	add(g2, &fieldSpec{kind: "group", disc: 0, group: inner})
+	add(g2, &fieldSpec{kind: "struct", off: 2, disc: 1, defPtr: 7400})
+	add(n, &fieldSpec{kind: "group", disc: nd, group: g2})
+	return []*entry{{name: name, source: "boundary", req: g.build(name)}}
+}
+
 // probes of single suspicious generator paths; reported separately from the corpus
 func probeEntries() []*entry {
 	var es []*entry
